@@ -1,6 +1,6 @@
 (* C09 - pattern search reports exactly the occurrences, in order. *)
 From Coq Require Import ZArith List Lia Bool Arith.
-Require Import KmpModel KmpSpec KmpProof FindModel.
+Require Import KmpModel KmpSpec KmpProof FindModel FindBackward.
 Import ListNotations.
 
 (* the failure table is the longest-proper-border function (tbl[j] = longest k < j with pat[0..k) a suffix of
@@ -29,6 +29,12 @@ Theorem C09_find : forall fn n pat lo w,
   find_model fn n pat lo w = Some (find_spec fn n pat lo w).
 Proof. exact find_model_spec. Qed.
 Print Assumptions C09_find.
+
+(* the backward searches (BackwardMatches, FindR, FindLast, FindLastN) report the same occurrences as the forward ones,
+   in descending order *)
+Theorem C09_backward_is_reverse : forall pat lo w, occ_bwd pat lo w = rev (occ_fwd pat lo w).
+Proof. exact occ_bwd_is_rev. Qed.
+Print Assumptions C09_backward_is_reverse.
 
 (* a pattern containing a value that no digit of the text equals matches nowhere *)
 Theorem C09_bad_digit : forall pat w x, In x pat -> ~ In x w -> (1 <= length pat)%nat ->
